@@ -918,10 +918,10 @@ func TestVerifC10(t *testing.T) {
 		mk("stateful-json/out-of-band-messages", c10Opts{jsonResp: true, outOfBand: true}, b),
 		mk("stateful-sse/broadcast-from-handlers", c10Opts{broadcast: true}, b),
 		mk("stateful-sse/one-session/handlers-log-through-one-slog-handler", c10Opts{slog: true, oneSession: true}, 2),
-		mk("stateful-sse/ids-1-and-string-1", c10Opts{typedIDs: true}, env.Pick(0, 2)),
-		mk("stateful-json/ids-1-and-string-1", c10Opts{typedIDs: true, jsonResp: true}, env.Pick(0, 2)),
-		mk("stateful-sse+store/ids-1-and-string-1", c10Opts{typedIDs: true, store: true}, env.Pick(0, 2)),
-		mk("stateless-sse/ids-1-and-string-1", c10Opts{typedIDs: true, stateless: true}, env.Pick(0, 2)),
+		mk("stateful-sse/ids-1-and-string-1", c10Opts{typedIDs: true}, env.Pick(0, 1)),
+		mk("stateful-json/ids-1-and-string-1", c10Opts{typedIDs: true, jsonResp: true}, env.Pick(0, 1)),
+		mk("stateful-sse+store/ids-1-and-string-1", c10Opts{typedIDs: true, store: true}, env.Pick(0, 1)),
+		mk("stateless-sse/ids-1-and-string-1", c10Opts{typedIDs: true, stateless: true}, env.Pick(0, 1)),
 		mk("stateful-sse/duplicate-in-flight-id", c10Opts{dupID: true}, env.Pick(2, 3)),
 		mk("stateful-sse+store/duplicate-in-flight-id", c10Opts{dupID: true, store: true}, env.Pick(2, 3)),
 		vs.E1(t, "stateful-sse/server-requests-during-calls", b, vs.Options{}, func() vs.Verdict { return c10ServerRequests(false) }),
